@@ -28,12 +28,18 @@ def segToJson : PyGql.Instr.Seg → J
 def resultToJson (r : Result) : J :=
   .obj [("data", valToJson r.data), ("errors", .arr (r.errors.map fun e => .arr (e.path.map segToJson)))]
 
+partial def rselOfJson (j : J) : RSel :=
+  match j.get? "spread" with
+  | some (.arr ss) => .spread (ss.map rselOfJson)
+  | _ => .field ((j.get? "k").bind J.asStr?)
+
 def handle (j : J) : J :=
   match j.strD "op" with
   | "subscribe" =>
     let r : SubRequest := {
       operation := match j.strD "operation" with | "query" => .query | "mutation" => .mutation | _ => .subscription,
-      rootFields := j.natD "rootFields", fieldDefined := j.boolD "fieldDefined", hasSubResolver := j.boolD "hasSubResolver",
+      opselOk := j.strD "opsel" "ok" == "ok", varsOk := j.strD "vars" "ok" == "ok",
+      root := (j.arrD "root").map rselOfJson, fieldDefined := j.boolD "fieldDefined", hasSubResolver := j.boolD "hasSubResolver",
       streamRuntime := j.boolD "streamRuntime",
       events := (j.arrD "events").map fun e => ((e.asArr?).getD []).map nodeOfJson }
     match subscribe r with
